@@ -63,9 +63,10 @@ POOL_LABEL = {"confuse": "texts that coincide under white-space / case normalisa
               "twotokens": "two delimited tokens (raw string, quoted identifier, JSON literal, with and without an escaped delimiter) in one expression, every order",
               "deepeq": "equal and unequal values nested 63..90 container levels deep under == / != / contains",
               "tonum": "to_number on strings made of the characters of numbers that are not numbers: null, never a failure",
+              "bigsigns": "negative integers against integers above 2^63 - 1 (six operators, both operand orders, document and literals); numbers below -2^63 and beyond 2^64 under floor / ceil / abs and the sorting functions",
               "zeros": "zeros of both signs (documents built with the sign bit set, literals written -0.0): one number under every comparison, sort and extreme",
               "digitkeys": "member names made of digits on arrays and objects (a name never indexes an array)"}
-R6 = ["mapnull", "nested", "twins", "twoslice", "cmpchain", "absent", "litpost", "notgroup", "selfnest", "keyorder", "msidx", "foldlit", "digitkeys", "bsruns", "byorder", "bykeys", "msnull", "exprefbody", "firstnull", "bignums", "zeropad", "strclass", "scalarties", "twotokens", "deepeq", "tonum", "zeros"]
+R6 = ["mapnull", "nested", "twins", "twoslice", "cmpchain", "absent", "litpost", "notgroup", "selfnest", "keyorder", "msidx", "foldlit", "digitkeys", "bsruns", "byorder", "bykeys", "msnull", "exprefbody", "firstnull", "bignums", "zeropad", "strclass", "scalarties", "twotokens", "deepeq", "tonum", "zeros", "bigsigns"]
 
 
 def pool_families(fams, work, ev, drv, nsamples=1):
